@@ -12,7 +12,8 @@ two's-complement value of `number`, for EVERY width `n ≥ 1` and EVERY integer 
   `signedVal n number   = if u ≥ 2^(n-1) then u - 2^n else u`   its two's-complement reading
 
 Property theorems only; helper lemmas live in `ArchSim/Lemmas/C17*.lean`.
-(The data-memory-table clause of C17 is proved elsewhere.)
+(The tables built from the formatter — register table, data-memory table, TOY views — are in
+`Props/C17Views.lean`.)
 -/
 import ArchSim.Model.Fmt
 import ArchSim.Spec.Digits
